@@ -16,6 +16,7 @@ import TshVerif.Sem.Src
 import TshVerif.Sem2.Src
 import TshVerif.Sem2.Bash
 import TshVerif.Sem2.Cover
+import TshVerif.Sem.CmdFrag
 
 open Tsh
 
@@ -174,6 +175,27 @@ def handleSem (args : List String) : String :=
     | .panic => "PANIC"
     | .diverge => "DIVERGE"
 
+/-- SEMB: source files -> the two semantic models of the Batch target on the same program (scalar fragment only).
+    answer `SEMB <src32> <cmd> <S|F|N>`: `Sem/Src32` on the AST, `Sem/Cmd` (the program-counter machine) on the emitted
+    lines, and whether the program is in the straight-line fragment of `C05.batch_preserves_straight_line_semantics` (S),
+    in the scalar fragment (F) or in neither (N) -/
+def handleSemB (args : List String) : String :=
+  match parseArgs args with
+  | none => "BADREQ"
+  | some (fs, m) =>
+    match Parser.parse fs m with
+    | .ok p _ =>
+      let f1 := Sem.Src.fragStmts p.body
+      let st := C05S.straight p.body
+      let src := if f1 then semRes (SemB.Src32.runProgram 200000 p.body) else "-"
+      let cmd := if f1 then (match Batch.compile p.body with
+        | .ok ls => semRes (SemB.run 2000000 ls)
+        | _ => "U") else "-"
+      "SEMB " ++ src ++ " " ++ cmd ++ " " ++ (if st then "S" else if f1 then "F" else "N")
+    | .error => "ERR"
+    | .panic => "PANIC"
+    | .diverge => "DIVERGE"
+
 /-- TRACE <hex>: every lexeme (blanks and comments included) as ty:texthex -/
 def handleTrace (hex : String) : String :=
   match bytesOfHex hex with
@@ -287,6 +309,7 @@ def handle (line : String) : String :=
   if line.startsWith "CLI " then handleCli ((line.drop 4).toString.splitOn " ") else
   if line.startsWith "COVER " then handleCover ((line.drop 6).toString.splitOn " ") else
   if line.startsWith "SEM " then handleSem ((line.drop 4).toString.splitOn " ") else
+  if line.startsWith "SEMB " then handleSemB ((line.drop 5).toString.splitOn " ") else
   if line.startsWith "FULLBASH " then handleFullBash ((line.drop 9).toString.splitOn " ") else
   if line.startsWith "PARSE " then handleParse ((line.drop 6).toString.splitOn " ") else
   if line.startsWith "PTCHECK " then handlePT (line.drop 8).toString else
